@@ -183,6 +183,17 @@ def gen_spec(rng, *, strategy=None, n=None, nrow=None, header_mode=None, footnot
     return spec, info
 
 
+def attr_at(value, r, c, default):
+    """body attribute value at table position (r, c): scalar | per-column list | matrix (cyclic broadcast)"""
+    if value is None:
+        return default
+    if not isinstance(value, list):
+        return value
+    if value and not isinstance(value[0], list):
+        return value[c % len(value)]
+    return value[r % len(value)][c % len(value[0])]
+
+
 def ldoc_of(spec, info):
     """The Lean model's input (LDoc JSON) computed from the spec — mirrors `calculate_row_metadata`'s
     line estimate with the real get_string_width (font 1, size 9; str(None) == 'None')."""
@@ -201,10 +212,12 @@ def ldoc_of(spec, info):
     pb = info["page_by"] or []
     sb = info["subline_by"] or []
     out = []
-    for r in rows:
+    body = spec.get("body") or {}
+    for ri, r in enumerate(rows):
         ln = 1
         for k, ci in enumerate(disp_idx):
-            w = measure(str(r[ci]), info.get("font", 1), info.get("size", 9))
+            w = measure(str(r[ci]), attr_at(body.get("text_font"), ri, ci, 1),
+                        attr_at(body.get("text_font_size"), ri, ci, 9))
             ln = max(ln, max(1, int(w / widths[k]) + 1))
         pk = [r[cols.index(c)] for c in pb]
         sk = [r[cols.index(c)] for c in sb]
